@@ -9,6 +9,8 @@ Sub-protocol `C11` (also the base of `C12`): the pulse generator under step sche
         -> <ok|err:e> <time after> <stopped 0|1> <stop time|-> E <time:level> …   (edges of this run)
   verdict                     the waveform spec on all edges since the tape was inserted       -> ok | undecided | violates:<what>
   adjudicate <stop|-> <time:level> …   the same verdict for an edge list observed on the real code
+  adjwide <last sample time> <a:b:level> …   verdict for a *sampled* observation (system level): every edge lies in
+        (a, b]; a pulse is rejected only if no length compatible with the samples is within nominal..nominal+32
 Schedules (both sides implement them identically; SplitMix64 as in harness/src/util.rs):
   kind 0 uniform 1..16 · 1 constant (seed mod 16)+1 · 2 mostly 1..4, sometimes 16 · 3 alternating 16,1
   · 4 instruction-like {3,4,4,4,5,6,7,8,3,1} · 5 constant `seed` T (coarse advance, used by C12 only)
@@ -136,6 +138,91 @@ def verdictOf (blocks : List (List Byte)) (tailLen : Nat) (edges : List Edge) (s
   else if stop.isSome && !rest.isEmpty then "violates:pulses-after-last-pause"
   else "ok"
 
+/-! sampled observation (system level): every edge is only known to lie in `(a, b]` -/
+
+structure WEdge where
+  a : Nat
+  b : Nat
+  level : Bool
+
+def parseWEdge (s : String) : Option WEdge :=
+  match s.splitOn ":" with
+  | [a, b, l] => some ⟨hexNatD a, hexNatD b, l = "1"⟩
+  | _ => none
+
+/-- (exclusive lower bound, exclusive upper bound) of every pulse between consecutive edges -/
+def widePulses : List WEdge → List (Nat × Nat)
+  | e :: f :: rest => (f.a - e.b, f.b - e.a) :: widePulses (f :: rest)
+  | _ => []
+
+/-- the sampled edges of one block; `pause`: the pulse between its last edge and the next block's first -/
+structure WBlock where
+  edges : List WEdge
+  pause : Option (Nat × Nat)
+
+/-- cut the edge list where two consecutive edges are at least ~3 M T-states apart -/
+def splitBlocks (es : List WEdge) : List WBlock :=
+  let (done, cur) := es.foldl (fun (acc : List WBlock × List WEdge) f =>
+      match acc.2 with
+      | e :: _ =>
+        if f.a - e.b ≥ 2999000 then (⟨acc.2.reverse, some (f.a - e.b, f.b - e.a)⟩ :: acc.1, [f])
+        else (acc.1, f :: acc.2)
+      | [] => (acc.1, [f])) ([], [])
+  (if cur.isEmpty then done else ⟨cur.reverse, none⟩ :: done).reverse
+
+/-- first thing wrong with the sampled edges of one block, or `ok` / `incomplete` -/
+def diagnoseWide (bs : List Byte) (blk : WBlock) (silent : Bool) : String :=
+  match bs with
+  | [] => "empty-block"
+  | flag :: _ =>
+    let measured := widePulses blk.edges
+    let pauseSeen := blk.pause.isSome
+    let run := (measured.takeWhile (fun a => Spec.pulseOkWide 2168 a.1 a.2)).length
+    let p := if flag = 0 then 8063 else max 3223 run
+    let kinds : List (String × Nat) :=
+      List.replicate p ("pilot", 2168) ++ [("sync1", 667), ("sync2", 735)] ++
+        (bs.flatMap Spec.bytePulses).map (fun l => (if l == 855 then "bit0" else "bit1", l))
+    let bad := (kinds.zip measured).find? (fun (k, m) => !Spec.pulseOkWide k.2 m.1 m.2)
+    match bad with
+    | some ((kind, len), (lo, hi)) =>
+      if kind == "pilot" && Spec.pulseOkWide 667 lo hi then "pilot-count"
+      else if kind == "sync1" && Spec.pulseOkWide 2168 lo hi then "pilot-count"
+      else if lo + 1 > len + 32 then s!"{kind}-too-long" else s!"{kind}-too-short"
+    | none =>
+      -- cumulative: the first k pulses together (bites when samples are far apart)
+      let e0 := blk.edges.headD ⟨0, 0, false⟩
+      let cum := (kinds.zip (blk.edges.drop 1)).foldl
+        (fun (acc : Nat × Nat × String) (ke : (String × Nat) × WEdge) =>
+          let total := acc.1 + ke.1.2
+          let k := acc.2.1 + 1
+          let lo := ke.2.a - e0.b
+          let hi := ke.2.b - e0.a
+          if acc.2.2 != "" then acc
+          else if Spec.sumOkWide total k lo hi then (total, k, "")
+          else (total, k, if lo + 1 > total + 32 * k then "pulse-too-long" else "pulse-too-short"))
+        (0, 0, "")
+      if cum.2.2 != "" then cum.2.2
+      else if measured.length < kinds.length then
+        (if pauseSeen || silent then "pulse-count" else "incomplete")
+      else if measured.length > kinds.length then "pulse-count"
+      else match blk.pause with
+        | none => "ok"
+        | some pz => if 3000000 < pz.2 && pz.1 < 4500000 then "ok" else "pause"
+
+/-- verdict over a sampled observation that ended at time `lastT` -/
+def verdictWide (blocks : List (List Byte)) (tailLen : Nat) (edges : List WEdge) (lastT : Nat) : String :=
+  if tailLen ≥ 2 || blocks.any (·.isEmpty) then "undecided" else
+  let blks := splitBlocks edges
+  let lastB := match edges.getLast? with | some e => e.b | none => 0
+  let silent := lastT ≥ lastB + 100000
+  let rec go : Nat → List (List Byte) → List WBlock → String
+    | _, _, [] => "ok"
+    | i, [], _ :: _ => s!"violates:block-{i}:more-blocks-than-on-tape"
+    | i, b :: bs, k :: ks =>
+      let d := diagnoseWide b k silent
+      if d == "ok" || (d == "incomplete" && ks.isEmpty) then go (i + 1) bs ks else s!"violates:block-{i}:{d}"
+  go 0 blocks blks
+
 def handle (s : St) : List String → St × String
   | ["variant", v] => ({ s with fixed := boolD v }, "ok")
   | ["tape", h] =>
@@ -164,6 +251,8 @@ def handle (s : St) : List String → St × String
   | "adjudicate" :: stop :: es =>
     let stopT := if stop = "-" then none else some (hexNatD stop)
     (s, verdictOf s.blocks s.tailLen (es.filterMap parseEdge) stopT)
+  | "adjwide" :: lastT :: es =>
+    (s, verdictWide s.blocks s.tailLen (es.filterMap parseWEdge) (hexNatD lastT))
   | _ => (s, "bad-op")
 
 def proto : Driver.Proto := { σ := St, init := {}, handle := handle }
